@@ -4,6 +4,7 @@ mod obs;
 mod ser;
 mod util;
 mod other;
+mod cli;
 
 use gens::*;
 use std::collections::{BTreeMap, HashSet};
@@ -154,6 +155,7 @@ pub fn universe_size(gen: &str, fx: &Fixtures) -> u64 {
         "imp" => IMP_U,
         "mal" => MAL_U,
         "range" => other::RANGE_U,
+        "cli" => cli::CLI_U,
         _ => 0,
     }
 }
@@ -542,6 +544,21 @@ fn main() {
             }
         }
         "fmtlist" => other::fmtlist(&args[2]),
+        // vh cli <tier> <seed> <outdir> <binary> <prop>
+        "cli" => cli::run(&args[2], args[3].parse().unwrap_or(0), &args[4], &args[5], &args[6]),
+        "cli1" => cli::replay(&args[2], &args[3]),
+        "range1" => {
+            let src = std::fs::read_to_string(&args[2]).unwrap();
+            let source = Source::detached(src.clone());
+            let (a, b): (usize, usize) = (args[3].parse().unwrap(), args[4].parse().unwrap());
+            match other::check_range(&src, &source, Cfg::default(), a, b) {
+                Ok(r) => println!("PASS {:?}", r),
+                Err((k, m)) => {
+                    println!("FAIL {} {}", k, m);
+                    std::process::exit(1);
+                }
+            }
+        }
         "total" | "range" | "det" | "perf" | "wsset" | "chainwidth" => other::run(cmd, &args[2..]),
         _ => {
             eprintln!("usage: vh printer|validate|one|emit|obs|total|range|det|perf ...");
